@@ -276,7 +276,7 @@ def check(ctx):
     # ---- C07.g handles are dropped by revocation exactly when their trigger is revoked (shared with C06.b / C06.e / C06.f) ----
     # too few removals leak the reactor (a handle survives its revoked trigger); too many despawn it prematurely
     import core, c06
-    ng = core.adopt(ctx, c06, lambda o: o["rule"] in ("C06.b", "C06.f") or (o["rule"] == "C06.e" and ("token-lists" in o["key"] or "one-entry-per" in o["key"] or "built-from-bundle" in o["key"] or "token-matches" in o["key"])), "C07.g")
+    ng = core.adopt(ctx, c06, lambda o: o["rule"] in ("C06.b", "C06.f", "C06.g") or (o["rule"] == "C06.e" and ("token-lists" in o["key"] or "one-entry-per" in o["key"] or "built-from-bundle" in o["key"] or "token-matches" in o["key"])), "C07.g")
     ctx.floor("C07.g", ng, 30, "shared revoke-exactness obligations (C06.b/e/f)")
 
     # a reactor whose trigger can never fire must not keep a handle (registered for a dead entity => never collected);
